@@ -155,15 +155,25 @@ func buildGuest(peer string, start int) []byte {
 			b.LocalGet(lZero).I32Const(0x7fc00000).Raw(e.OpI32Or).Raw(e.OpF32ReinterpretI32).Raw(e.OpI32TruncF32S).Return()
 		})
 		when(opLoadOOB, func() { b.LocalGet(lZero).I32Const(-256).Raw(e.OpI32Add).Mem(e.OpI32Load, 2, 0).Return() })
-		when(opTableOOB, func() { b.LocalGet(lRest).LocalGet(lZero).I32Const(1000).Raw(e.OpI32Add).CallIndirect(runType, 0).Return() })
-		when(opTableNull, func() { b.LocalGet(lRest).LocalGet(lZero).I32Const(1).Raw(e.OpI32Add).CallIndirect(runType, 0).Return() })
-		when(opSigMismatch, func() { b.LocalGet(lRest).LocalGet(lZero).I32Const(2).Raw(e.OpI32Add).CallIndirect(runType, 0).Return() })
+		when(opTableOOB, func() {
+			b.LocalGet(lRest).LocalGet(lZero).I32Const(1000).Raw(e.OpI32Add).CallIndirect(runType, 0).Return()
+		})
+		when(opTableNull, func() {
+			b.LocalGet(lRest).LocalGet(lZero).I32Const(1).Raw(e.OpI32Add).CallIndirect(runType, 0).Return()
+		})
+		when(opSigMismatch, func() {
+			b.LocalGet(lRest).LocalGet(lZero).I32Const(2).Raw(e.OpI32Add).CallIndirect(runType, 0).Return()
+		})
 		when(opUnaligned, func() { b.LocalGet(lZero).I32Const(1).Raw(e.OpI32Add).FE(0x10, 2, 0).Return() }) // i32.atomic.load
 		when(opTruncRange, func() { b.F64(1e10).Raw(0xaa).Return() })                                       // i32.trunc_f64_s
 		when(opTableGetOOB, func() { b.LocalGet(lZero).I32Const(1000).Raw(e.OpI32Add).TableGet(0).RefIsNull().Return() })
 		when(opFillOOB, func() { b.I32Const(65000).LocalGet(lZero).I32Const(4096).MemoryFill().I32Const(0).Return() })
-		when(opRem64Zero, func() { b.LocalGet(lRest).LocalGet(lZero).Raw(e.OpI64ExtendI32U).Raw(0x82).Raw(e.OpI32WrapI64).Return() }) // i64.rem_u
-		when(opStoreOOB, func() { b.LocalGet(lZero).I32Const(65532).Raw(e.OpI32Add).I64Const(-1).Mem(e.OpI64Store, 0, 0).I32Const(0).Return() })
+		when(opRem64Zero, func() {
+			b.LocalGet(lRest).LocalGet(lZero).Raw(e.OpI64ExtendI32U).Raw(0x82).Raw(e.OpI32WrapI64).Return()
+		}) // i64.rem_u
+		when(opStoreOOB, func() {
+			b.LocalGet(lZero).I32Const(65532).Raw(e.OpI32Add).I64Const(-1).Mem(e.OpI64Store, 0, 0).I32Const(0).Return()
+		})
 		when(opAtomicRMWOOB, func() { b.LocalGet(lZero).I32Const(65536).Raw(e.OpI32Add).I32Const(1).FE(0x1e, 2, 0).Return() }) // i32.atomic.rmw.add
 		for k := 0; k < nPanicKinds; k++ {
 			kk := k
@@ -185,7 +195,9 @@ func buildGuest(peer string, start int) []byte {
 		}
 		when(opNestLocal, func() { nest(func() { b.LocalGet(lRest).Call(fRun) }) })
 		when(opNestPeer, func() { nest(func() { b.LocalGet(lRest).Call(peerRun) }) })
-		when(opNestIndirect, func() { nest(func() { b.LocalGet(lRest).LocalGet(lZero).I32Const(3).Raw(e.OpI32Add).CallIndirect(runType, 0) }) })
+		when(opNestIndirect, func() {
+			nest(func() { b.LocalGet(lRest).LocalGet(lZero).I32Const(3).Raw(e.OpI32Add).CallIndirect(runType, 0) })
+		})
 		when(opRec+0, func() { b.Call(fRec0); dead() })
 		when(opRec+1, func() { b.Call(fRec1000); dead() })
 		when(opRec+2, func() { b.Call(fRecV); dead() })
@@ -200,7 +212,7 @@ func buildGuest(peer string, start int) []byte {
 		b.LocalGet(lOp).I32Const(opCbMask).Raw(e.OpI32And).I32Const(opCallback).Raw(e.OpI32Eq).If()
 		nest(func() {
 			b.LocalGet(lOp).I32Const(1).Raw(e.OpI32ShrU).I32Const(3).Raw(e.OpI32And) // target
-			b.LocalGet(lOp).I32Const(1).Raw(e.OpI32And)                             // mode
+			b.LocalGet(lOp).I32Const(1).Raw(e.OpI32And)                              // mode
 			b.LocalGet(lRest).Call(cb)
 		})
 		b.End()
@@ -271,7 +283,7 @@ func buildGuest(peer string, start int) []byte {
 		b := e.NewB()
 		incRec(b)
 		for i := 0; i < 5; i++ {
-			b.LocalGet(uint32(4*i)).I32Const(1).Raw(e.OpI32Add)
+			b.LocalGet(uint32(4 * i)).I32Const(1).Raw(e.OpI32Add)
 			b.LocalGet(uint32(4*i + 1)).I64Const(1).Raw(e.OpI64Add)
 			b.LocalGet(uint32(4*i + 2)).F32(1).Raw(e.OpF32Add)
 			b.LocalGet(uint32(4*i + 3)).F64(1).Raw(e.OpF64Add)
@@ -279,7 +291,7 @@ func buildGuest(peer string, start int) []byte {
 		b.Call(fRec20)
 		b.I64Const(0)
 		for i := 0; i < 5; i++ {
-			b.LocalGet(uint32(4*i)).Raw(e.OpI64ExtendI32U).Raw(e.OpI64Xor)
+			b.LocalGet(uint32(4 * i)).Raw(e.OpI64ExtendI32U).Raw(e.OpI64Xor)
 			b.LocalGet(uint32(4*i + 1)).Raw(e.OpI64Xor)
 			b.LocalGet(uint32(4*i + 2)).Raw(e.OpI32ReinterpretF32).Raw(e.OpI64ExtendI32U).Raw(e.OpI64Xor)
 			b.LocalGet(uint32(4*i + 3)).Raw(e.OpI64ReinterpretF64).Raw(e.OpI64Xor)
